@@ -15,22 +15,36 @@
             joined_source += '"""' if joined_source.endswith("\n") else '\n"""'
             return '"""\n' + indent(joined_source, (variable_indent_size + offset) * " ")
 
-  The rewriting is REGEX BASED TEXT PROCESSING OF PYTHON SOURCE.  It is modelled as a pure function
-  on the class of operation texts on which it acts as intended; on the four classes of texts below
-  the rewriter damages the literal (or the emitted module no longer parses and black raises
-  `InvalidInput`) — there the model answers `.unmodelled trig` (DESIGN.md §1.2), the findings
-  C02-F1…F5, F8 are demonstrated on the real code by the harness, and no theorem is claimed:
+  The rewriting is REGEX BASED TEXT PROCESSING OF PYTHON SOURCE.  Four classes of texts are damaged by it
+  (findings C02-F1…F5, F8; each is a `Trig`, decided by `trigger`):
 
+    blockString  the text contains `"""`               (closes the emitted literal early)
     quote        the text contains `'`                 (every `'` is deleted / the regex mis-pairs)
     escN         the text contains backslash + `n`     (`replace("\\n", "\n")` hits inside the line)
-    blockString  the text contains `"""`               (closes the emitted literal early)
     lineSep      the text contains a `str.splitlines` separator other than `\n`
                  (U+2028/U+2029 are printed raw by graphql-core's `print_ast` inside string
                   literals: the literal is cut in two; the others can only come from block strings)
 
-  Outside these regions `embed` is exact (validated against the real `ast_to_str` on every run) for texts
-  of at least two lines — a printed operation has at least three; a single constant is not rewritten at all
-  by `format_multiline_strings` (its regex asks for two or more adjacent literals).
+  MODELLED EXACTLY: every text without `'` and without `"""` — the safe texts AND the regions `escN` and
+  `lineSep`.  There the two regexes act as on a safe text (one run of adjacent `'…'` literals, no `'` inside), and
+  what is left is `str.replace`, `textwrap.indent` and Python's reading of the literal, all of which are in this
+  file / Spec/PyStr.lean.  What comes out is described in closed form by `describedSent` (theorem
+  `embed_described`, Proofs/EmbedBN.lean): every extra line separator has become a line break, and every
+  backslash-`n` pair of a line has become "backslash, newline" in the literal, which Python reads as a line
+  CONTINUATION — the two characters vanish and the indentation `textwrap.indent` put in front of the rest of
+  the line takes their place (`"a\nb"` is sent as `"a            b"`: finding C02-F2; `"a\\nb"` as
+  `"a\            b"`: C02-F3).
+  DECLINED (`.unmodelled`, DESIGN.md §1.2) — `quote` and `blockString` only: there the outcome is decided by
+  (i) the backtracking semantics of the two regexes `.*?=.*?('.*?'\s*){2,}` / `'.*'` over the whole unparsed
+  statement when the quotes no longer pair up (`repr` switches to `"…"` for a line with `'` and no `"`, writes
+  `\'` otherwise; an `=` in the text — a variable default — restarts the outer match), and (ii) whether Python's /
+  black's PARSER accepts the damaged module (`InvalidInput` = an internal error instead of a client: F1, F4) —
+  a parser of Python source is outside the model.  Those findings are demonstrated on the real code by the
+  harness on every run and no theorem is claimed for them.
+
+  `embed` is validated against the real `ast_to_str` on every run for texts of at least two lines — a printed
+  operation has at least three; a single constant is not rewritten at all by `format_multiline_strings` (its
+  regex asks for two or more adjacent literals).
   `vi` = `get_variable_indent_size` of the assignment (8 in a client method, 0 in the operations
   module), `off` = `multiline_strings_offset` (4 for `ast_to_str`, 0 for ExtractOperations).
 
@@ -44,6 +58,13 @@ open Ariadne.PyStr
 inductive Trig where
   | blockString | quote | escN | lineSep
   deriving Repr, DecidableEq
+
+/-- the regions in which the model declines to answer (see the header) -/
+def Trig.declined : Trig → Bool
+  | .blockString => true
+  | .quote => true
+  | .escN => false
+  | .lineSep => false
 
 def Trig.name : Trig → String
   | .blockString => "textBlockString"
@@ -111,8 +132,9 @@ inductive Embedded where
 /-- operation text ↦ emitted literal -/
 def embed (env : Char → Bool) (vi off : Nat) (q : List Char) : Embedded :=
   match trigger q with
-  | some t => .unmodelled t
-  | none => .ok (convert vi off (unparseConsts env (constants q)))
+  | some .blockString => .unmodelled .blockString
+  | some .quote => .unmodelled .quote
+  | _ => .ok (convert vi off (unparseConsts env (constants q)))
 
 /-- the string the generated method hands to the transport: the value of the emitted literal -/
 def sentText (env : Char → Bool) (vi off : Nat) (q : List Char) : Option (List Char) :=
@@ -128,5 +150,44 @@ def indentLines (k : Nat) (ls : List (List Char)) : List Char :=
 
 def expectedSent (k : Nat) (q : List Char) : List Char :=
   '\n' :: (indentLines k (splitlines q) ++ List.replicate k ' ')
+
+/-! ### the specification: the text, re-indented, character for character -/
+
+/-- the lines of a text: only `\n` ends a line (a final `\n` does not open an empty last line) -/
+def splitNL : List Char → List (List Char)
+  | [] => []
+  | c :: cs =>
+    if c == '\n' then [] :: splitNL cs
+    else
+      match splitNL cs with
+      | [] => [[c]]
+      | l :: ls => (c :: l) :: ls
+
+/-- what a correct embedding hands to the transport: every character of every line is kept.  Equal to
+    `expectedSent` for texts without extra line separators (`expectedSent_eq_expectedText`). -/
+def expectedText (k : Nat) (q : List Char) : List Char :=
+  '\n' :: (indentLines k (splitNL q) ++ List.replicate k ' ')
+
+/-! ### the description: what IS sent for a text without `'` and `"""` -/
+
+/-- a line cut at every backslash-`n` pair (leftmost first, non-overlapping — `str.replace`), the pairs
+    dropped: (first segment, further segments) -/
+def segsBN : List Char → List Char × List (List Char)
+  | [] => ([], [])
+  | '\\' :: 'n' :: rest => ([], (segsBN rest).1 :: (segsBN rest).2)
+  | c :: rest => (c :: (segsBN rest).1, (segsBN rest).2)
+
+/-- what is sent for the segments of one line: a segment that ended in a backslash-`n` pair is followed directly
+    (line continuation) by the indentation and the next segment; `textwrap.indent` indents such a segment always
+    (its source line holds the backslash) and the last one unless it is blank -/
+def sentSegs (k : Nat) (s : List Char) : List (List Char) → List Char
+  | [] => (if s.all (· == ' ') then s else List.replicate k ' ' ++ s) ++ ['\n']
+  | t :: ts => List.replicate k ' ' ++ (s ++ sentSegs k t ts)
+
+def sentLine (k : Nat) (l : List Char) : List Char := sentSegs k (segsBN l).1 (segsBN l).2
+
+/-- the text the transport receives, in closed form, for every text without `'` and `"""` -/
+def describedSent (k : Nat) (q : List Char) : List Char :=
+  '\n' :: ((splitlines q).flatMap (sentLine k) ++ List.replicate k ' ')
 
 end Ariadne.Embed
